@@ -103,4 +103,34 @@ def read (s : St) (series field : String) (tmin tmax : Int) (asc : Bool) : List 
 def seriesList (s : St) : List String := s.index.map (·.1)
 def measurements (s : St) : List String := (s.index.map (·.2)).eraseDups
 
+/-- tag pairs of a canonical series key `meas|k=v,k=v` (`meas|-` has none) -/
+def tagsOf (series : String) : List (String × String) :=
+  match series.splitOn "|" with
+  | [_, tags] => if tags == "-" then [] else (tags.splitOn ",").filterMap fun kv => match kv.splitOn "=" with
+    | [k, v] => some (k, v)
+    | _ => none
+  | _ => []
+
+/-- tag predicates of the listing queries (`=`, `!=`, and anchored alternations for `=~`, `!~`):
+the value of an absent tag is the empty string -/
+def tagPred (series key op vals : String) : Bool :=
+  let v := (((tagsOf series).filter (·.1 == key)).head?.map (·.2)).getD ""
+  let want := if vals == "-" then "" else vals
+  match op with
+  | "eq" => v == want
+  | "ne" => v != want
+  | "in" => (want.splitOn ",").contains v
+  | "nin" => !(want.splitOn ",").contains v
+  | _ => false
+
+/-- series of a measurement under a tag predicate -/
+def seriesBy (s : St) (meas key op vals : String) : List String :=
+  (s.index.filter fun e => e.2 == meas && tagPred e.1 key op vals).map (·.1)
+
+def tagKeys (s : St) (meas : String) : List String :=
+  ((s.index.filter (·.2 == meas)).flatMap fun e => (tagsOf e.1).map (·.1)).eraseDups
+
+def tagValues (s : St) (meas key : String) : List String :=
+  ((s.index.filter (·.2 == meas)).flatMap fun e => ((tagsOf e.1).filter (·.1 == key)).map (·.2)).eraseDups
+
 end InfluxVerif.ShardSpec
